@@ -233,6 +233,87 @@ def ic_row0(EoN, entry, G, nodelist, X0, Y0):
         return list(Xs[:, 0]) + list(Ys[:, 0]) + list(XY[:, :, 0].ravel()) + list(XX[:, :, 0].ravel())
 
 
+def pic_row0(EoN, entry, G, nodelist, I0, R0):
+    A = EoN.analytic
+    import numpy as np
+    kw = dict(nodelist=nodelist, tmax=0.125, tcount=2, return_full_data=True)
+    with np.errstate(all='ignore'):
+        if entry == 'SIS_individual_based':
+            t, Ss, Is = A.SIS_individual_based_pure_IC(G, 0.5, 1.0, I0, **kw)
+            return list(Is[:, 0])
+        if entry == 'SIR_individual_based':
+            out = A.SIR_individual_based_pure_IC(G, 0.5, 1.0, I0, initial_recovereds=R0, **kw)
+            return list(out[4][:, 0]) + list(out[5][:, 0])
+        if entry == 'SIS_pair_based':
+            t, S, I, Xs, Ys, XY, XX = A.SIS_pair_based_pure_IC(G, 0.5, 1.0, I0, **kw)
+            return list(Ys[:, 0]) + list(XY[:, :, 0].ravel()) + list(XX[:, :, 0].ravel())
+        t, S, I, R, Xs, Ys, Zs, XY, XX = A.SIR_pair_based_pure_IC(G, 0.5, 1.0, I0, initial_recovereds=R0, **kw)
+        return list(Xs[:, 0]) + list(Ys[:, 0]) + list(XY[:, :, 0].ravel()) + list(XX[:, :, 0].ravel())
+
+
+def pic_line(sys, p, r, s, I0, R0):
+    n = s['n']
+    toks = ['PIC', str(sys), str(n)]
+    for a in adj_ids(s['G1'], s['ids1']):
+        toks += [str(len(a))] + [str(x) for x in a]
+    toks += [str(u) for u in p['nodelist']]
+    toks += [str(s['idx1'][u]) for u in range(n)]
+    for a in adj_ids(s['G2'], s['ids2']):
+        toks += [str(len(a))] + [str(x) for x in a]
+    toks += [str(u) for u in r['nl2']]
+    toks += [str(s['phi'][u]) for u in range(n)]
+    toks += [str(len(I0))] + [str(u) for u in I0] + [str(len(R0))] + [str(u) for u in R0]
+    return ' '.join(toks)
+
+
+def pic_check(EoN, rng, n_per_entry, report):
+    """the *_pure_IC entry points with initial sets (any container, any order) on both problems against node_V0 o (x0_sets, y0_set)"""
+    stats = {'pure_ic_cases': 0, 'pure_ic_agree': 0}
+    cases = []
+    for sys, entry in enumerate(ENTRY):
+        for k in range(n_per_entry):
+            p = L.gen_node_point(rng, L.NODE[sys])
+            r = relabel(rng, p, ['perm', 'str', 'tuple', 'frozenset'][k % 4])
+            nodes = list(range(p['n'])); rng.shuffle(nodes)
+            ni = rng.randint(1, max(1, p['n'] - 1))
+            I0 = nodes[:ni]
+            R0 = nodes[ni:ni + rng.randint(0, p['n'] - ni)] if sys in (1, 3) and rng.random() < .6 else []
+            cases.append((sys, entry, p, r, I0, R0))
+    setups = [setup(p, r) for _, _, p, r, _, _ in cases]
+    outs = C.run_model([pic_line(sys, p, r, s, I0, R0) for (sys, _, p, r, I0, R0), s in zip(cases, setups)], COMP)
+    for (sys, entry, p, r, I0, R0), s, o in zip(cases, setups, outs):
+        n = s['n']; name = entry + '_pure_IC'
+        rp = {'kind': 'pure-ic', 'entry': name, 'point': {k: p[k] for k in ('n', 'edges', 'labels', 'nodelist')}, 'relabel': r, 'I0': I0, 'R0': R0}
+        try:
+            V0, PV0, V0b = parse_blocks(o)
+        except Exception as e:
+            report('C14/c14x/driver', 'extracted driver failed: %s' % str(e)[:200], rp, True); continue
+        if PV0 != V0b:
+            report('C14/c14x/theorem-pure-ic', 'extracted node_V0 from the renamed sets is not the re-ordered node_V0: contradicts C14x_node_pure_IC_equivariant', rp, True); continue
+        mk = [set, list, tuple][len(cases) % 3]
+        I1 = [s['lab1'][u] for u in I0]; R1 = [s['lab1'][u] for u in R0]
+        I2 = [s['new'][u] for u in reversed(I0)]; R2 = [s['new'][u] for u in reversed(R0)]
+        try:
+            a = pic_row0(EoN, entry, s['G1'], s['nodelist1'], I1, (R1 if R0 else None))
+            b = pic_row0(EoN, entry, s['G2'], s['nodelist2'], set(I2), (set(R2) if R0 else None))
+        except Exception as e:
+            report('C14/%s/raises/labels=%s' % (name, r['kind']), '%s raises %s: %s' % (name, type(e).__name__, str(e)[:100]), rp, False); continue
+        stats['pure_ic_cases'] += 1
+        Pa = perm_py(sys, n, s['idx1'], r['nl2'], a)
+        if not vec_close(b, Pa):
+            k = next(i for i, (x, y) in enumerate(zip(b, Pa)) if not C.close(x, y, 1e-9))
+            report('C14/%s/initial-vector-not-equivariant/labels=%s' % (name, r['kind']),
+                   '%s: row 0 on the relabelled + re-ordered graph with the renamed initial sets is not the re-ordered row 0 of the original '
+                   '(component %d: %.12g vs %.12g)' % (name, k, b[k], Pa[k]), dict(rp, relabelled=b[:16], reordered_original=Pa[:16]), False)
+            continue
+        if not vec_close(a, [float(x) for x in V0]) or not vec_close(b, [float(x) for x in V0b]):
+            report('C14/c14x/tie/%s' % name, 'node_V0 o (x0_sets, y0_set) (Proofs/C14xDef.v) and row 0 of %s disagree: correspondence of the initial-vector model broken' % name,
+                   dict(rp, python=a[:16], model=[float(x) for x in V0[:16]]), True)
+            continue
+        stats['pure_ic_agree'] += 1
+    return stats
+
+
 def ic_line(sys, p, r, s, X0, Y0):
     n = s['n']
     toks = ['IC', str(sys), str(n)]
@@ -320,6 +401,7 @@ def part(run, tier, props):
     n = 40 if tier == 'quick' else 400
     stats, samples = eqv_check(EoN, eqv_cases(rng, n), report)
     stats.update(ic_check(EoN, rng, 10 if tier == 'quick' else 80, report))
+    stats.update(pic_check(EoN, rng, 10 if tier == 'quick' else 80, report))
     for key, (what, rp, no_input) in sorted(found.items()):
         run.violation(key, what, rp, no_input=no_input)
     return {'built': True, 'stats': stats, 'samples': samples, 'props': {'ok': xp['ok'], 'theorems': xp['theorems']}}
